@@ -93,7 +93,65 @@ def two_writer_scenarios(t_a: int, t_b: int) -> Iterator[Tuple[str, List[Event],
             ev += st(who, WRITE_BLOCKS[cnt[who]])
             cnt[who] += 1
         ev += [sp(t_a)] + st(2, FULL) + [sp(t_b, 0)] + st(3, FULL)
+        if t_b != t_a:
+            # every later cached load of either model must return that model's table (foreign-entry detection)
+            ev += [sp(t_b)] + st(4, FULL) + [sp(t_a, 0)] + st(5, FULL)
         yield f"2w-{t_a}{t_b}-" + "".join(map(str, order)), ev, False
+
+
+COLD_OPS = 13  # readText hashText tempDir exists compute | mkdir freshUid openW dump closeW rename unlink return
+WARM_OPS = 7  # readText hashText tempDir exists openR load return
+MISS = 4  # ops up to and including the `exists` test
+
+
+def three_run_scenarios(t_b: int = 0, t_w: int = 0, ks: Optional[Sequence[int]] = None) -> Iterator[Tuple[str, List[Event], bool]]:
+    """>= 3 runs, B and W missing the cache (B on text t_b, W on t_w), C hitting W's entry:
+    B pauses at every op boundary p of its write section, W commits, C does k ops of its hit path, B resumes and finishes,
+    C finishes; then a cached and an uncached load of every text involved.  Orders of the three runs: B pauses before W
+    starts (`BpW`), both do their miss prefix first (`BW`, `WB`)."""
+    ks = list(range(0, WARM_OPS + 1)) if ks is None else list(ks)
+    for order in ("BpW", "BW", "WB"):
+        for p in range(MISS + 1, COLD_OPS):
+            for k in ks:
+                ev: List[Event] = [sp(t_b), sp(t_w)]  # run 0 = B, run 1 = W
+                if order == "BpW":
+                    ev += st(0, p) + st(1, FULL)
+                elif order == "BW":
+                    ev += st(0, MISS) + st(1, MISS) + st(0, p - MISS) + st(1, FULL)
+                else:
+                    ev += st(1, MISS) + st(0, MISS) + st(0, p - MISS) + st(1, FULL)
+                ev += [sp(t_w)] + st(2, k) + st(0, FULL) + st(2, FULL)  # run 2 = C
+                ev += [sp(t_w)] + st(3, FULL) + [sp(t_w, 0)] + st(4, FULL)
+                if t_b != t_w:
+                    ev += [sp(t_b)] + st(5, FULL) + [sp(t_b, 0)] + st(6, FULL)
+                yield f"3r-{t_b}{t_w}-{order}-p{p}-k{k}", ev, False
+
+
+def random_same_model_schedule(rng: Any, nproc: int) -> List[Event]:
+    """nproc runs with the flag on ONE text started at random moments, stepped at random, no faults: paused cache-miss
+    writers, committing writers and later cache-hit runs in a random order; then a cached and an uncached load."""
+    t = rng.choice([0, 0, 1])
+    ev: List[Event] = [sp(t)]
+    spawned = 1
+    left = {0: COLD_OPS + 1}
+    while left:
+        if spawned < nproc and rng.random() < 0.15:
+            ev.append(sp(t))
+            left[spawned] = COLD_OPS + 1
+            spawned += 1
+            continue
+        i = rng.choice(sorted(left))
+        n = min(rng.choice([1, 1, 2, 3, 5, 9, 13]), left[i])
+        ev += st(i, n)
+        left[i] -= n
+        if left[i] <= 0:
+            del left[i]
+        if not left and spawned < nproc:
+            ev.append(sp(t))
+            left[spawned] = COLD_OPS + 1
+            spawned += 1
+    ev += [sp(t)] + st(spawned, FULL) + [sp(t, 0)] + st(spawned + 1, FULL)
+    return ev
 
 
 def reader_scenarios() -> Iterator[Tuple[str, List[Event], bool]]:
@@ -102,6 +160,16 @@ def reader_scenarios() -> Iterator[Tuple[str, List[Event], bool]]:
             for j in (4, 5, 7):
                 # writer A does k ops, reader B does j ops (up to exists / open / load), A goes on, B finishes
                 yield f"reader-{t_b}-{k}-{j}", [sp(0), sp(t_b)] + st(0, k) + st(1, j) + st(0, FULL) + st(1, FULL), False
+
+
+def two_reader_scenarios() -> Iterator[Tuple[str, List[Event], bool]]:
+    """A committed entry and two cache-HIT runs on it: R1 does j ops, R2 does k ops, R1 finishes, R2 finishes
+    (a hit path that modifies the directory — tidying, touching, deleting — is only seen by a second reader)."""
+    for j in range(0, WARM_OPS + 1):
+        for k in range(0, WARM_OPS + 1):
+            ev: List[Event] = [sp(0)] + st(0, FULL) + [sp(0), sp(0)] + st(1, j) + st(2, k) + st(1, FULL) + st(2, FULL)
+            ev += [sp(0)] + st(3, FULL) + [sp(0, 0)] + st(4, FULL)
+            yield f"2r-{j}-{k}", ev, False
 
 
 def random_schedule(rng: Any, nproc: int, length: int) -> List[Event]:
@@ -141,11 +209,21 @@ class Judge:
         self.memo: Dict[str, Tuple[bool, str]] = {}
         self.faulted = {e[1] for e in sched if e[0] in ("ex", "ki")}
         self.reported: set = set()
+        self.judged: set = set()
+        self.seen_log = 0
+        self.seen_trace = 0
+        self.seen_dels = 0
 
     def fail(self, k: int, sig: str, what: str) -> None:
         if sig in self.reported:
             return
         self.reported.add(sig)
+        # the runner keeps at most 200 failures: a few (and the shortest) schedules per root cause, so that a second root
+        # cause met in a later stream is still recorded
+        n, shortest = _PER_SIG.get(sig, (0, 1 << 30))
+        if n >= 6 and k + 1 >= shortest:
+            return
+        _PER_SIG[sig] = (n + 1, min(shortest, k + 1))
         self.ctx.fail(
             {"kind": "schedule", "name": self.name, "base": self.base, "sched": [list(e) for e in self.sched[: k + 1]], "mid_dump": self.mid},
             what,
@@ -153,53 +231,85 @@ class Judge:
         )
 
     def observe(self, world: rig.World, k: int) -> None:
+        """Called after every event.  Files are re-read every time (what unpickling says is memoised by content);
+        runs, log and trace are judged incrementally."""
+        import os
+
         d = world.cache_dir()
         if d is not None:
-            for p in d.iterdir():
-                kind = world.kind(p)
+            try:
+                names = sorted(os.listdir(d))
+            except OSError:
+                names = []
+            for name in names:
+                kind = rig.kind_of_name(name)
                 if kind == "final":
-                    data = p.read_bytes()
-                    dg = hashlib.blake2b(data, digest_size=12).hexdigest()
-                    if dg not in self.memo:
-                        self.memo[dg] = world.load_file(p)
-                    ok, src = self.memo[dg]
-                    name_id = world.canon(p)[1:]
-                    if not ok:
-                        self.fail(k, "partial-final-entry", f"after event {k} the cache entry {p.name} cannot be unpickled (partially written), a run would read it")
+                    p = d / name
+                    status, src, fp = world.probe_file(p)  # really unpickled (memoised by content, in the probe child)
+                    sha = name[len("model-") : -len(".pickle")]
+                    name_id = str(world.sha_to_id.get(sha, "?" + sha[:6]))
+                    if status == "hang":
+                        self.fail(k, "entry-unpickle-hangs", f"after event {k} pickle.load does not terminate on the cache entry {name} (a run reading it hangs)")
+                    elif status != "ok":
+                        self.fail(k, "partial-final-entry", f"after event {k} the cache entry {name} cannot be unpickled ({status[4:]}: partially written or damaged), a run would read it")
                     elif src != name_id:
                         self.fail(k, "foreign-final-entry", f"after event {k} the cache entry for text {name_id} holds the symbol table of text {src}")
+                    elif name_id.isdigit() and int(name_id) in INVALID:
+                        self.fail(k, "entry-of-invalid-model", f"after event {k} there is a cache entry for the invalid model text {name_id}")
+                    elif name_id.isdigit() and int(name_id) in world.texts and fp != reference_digest(world.texts[int(name_id)]):
+                        self.fail(k, "foreign-final-entry", f"after event {k} the cache entry for text {name_id} does not unpickle to the symbol table of an uncached load of that text")
                 elif kind != "tmp":
-                    self.fail(k, "stray-not-tmp", f"after event {k} the cache directory holds {p.name}, neither an entry nor a *.tmp file")
-        extra = [p for p in world.tmpdir.iterdir() if p != d]
+                    self.fail(k, "stray-not-tmp", f"after event {k} the cache directory holds {name}, neither an entry nor a *.tmp file")
+        try:
+            top = os.listdir(world.tmpdir)
+        except OSError:
+            top = []
+        extra = [n for n in top if d is None or n != d.name]
         if extra:
-            self.fail(k, "write-outside-cache-dir", f"after event {k} the temp directory holds {[p.name for p in extra][:3]}")
+            self.fail(k, "write-outside-cache-dir", f"after event {k} the temp directory holds {sorted(extra)[:3]}")
         for pr in world.procs:
-            if not pr.finished:
+            if not pr.finished or pr.idx in self.judged:
                 continue
+            self.judged.add(pr.idx)
             valid = pr.text_id not in INVALID
             want = f"ok:{pr.text_id}" if valid else f"err:{pr.text_id}"
             if pr.outcome in ("killed",):
                 continue
+            if pr.hung or pr.outcome == "hang":
+                self.fail(k, f"run-hangs:{pr.hang_at}", f"run {pr.idx} (text {pr.text_id}, flag {pr.flag}) did not come back from op {pr.hang_at} (blocked or spinning on what another run left behind)")
+                continue
             if pr.outcome == "crashed":
-                if pr.idx not in self.faulted:
-                    self.fail(k, f"spurious-crash:{pr.exc_type}", f"run {pr.idx} (text {pr.text_id}, flag {pr.flag}) raised {pr.exc_type} although no fault was injected into it")
+                ref = reference(world.texts[pr.text_id])
+                if pr.idx not in self.faulted and ref != ("crash", pr.exc_type):
+                    self.fail(k, f"spurious-crash:{pr.exc_type}", f"run {pr.idx} (text {pr.text_id}, flag {pr.flag}) raised {pr.exc_type} ({pr.exc_msg}) although no fault was injected into it")
                 continue
             if pr.outcome != want:
                 self.fail(k, "result-differs-from-uncached", f"run {pr.idx} (text {pr.text_id}, flag {pr.flag}) returned {pr.outcome}, an uncached run returns {want}")
             elif pr.result is not None and pr.outcome.startswith("ok"):
                 ref = reference(world.texts[pr.text_id])
-                got = fingerprint(pr.result)
+                try:
+                    got = fingerprint(pr.result)
+                except BaseException as e:  # noqa  (a damaged table that cannot even be walked)
+                    got = ("crash", type(e).__name__)
                 if got != ref:
                     self.fail(k, "symbol-table-differs-from-uncached", f"run {pr.idx}: symbol table differs from the one of an uncached run")
             elif pr.result is not None and pr.outcome.startswith("err"):
                 if pr.result[1] != reference(world.texts[pr.text_id]):
                     self.fail(k, "error-differs-from-uncached", f"run {pr.idx}: error message differs from the one of an uncached run")
         # runs without the flag never touch the cache
-        for entry in world.log:
+        log = world.log
+        while self.seen_log < len(log):
+            entry = log[self.seen_log]
+            self.seen_log += 1
             i = int(entry.split(":")[0])
             if not world.procs[i].flag:
                 self.fail(k, "uncached-run-touches-cache", f"run {i} without cache_model did {entry}")
-        for entry in world.trace:
+        trace = world.trace
+        self.seen_trace = max(0, self.seen_trace - (world.trace_dels - self.seen_dels))
+        self.seen_dels = world.trace_dels
+        while self.seen_trace < len(trace):
+            entry = trace[self.seen_trace]
+            self.seen_trace += 1
             i, _, op = entry.partition(":")
             if not world.procs[int(i)].flag and op.rstrip("!") not in ("readText", "compute", "return"):
                 self.fail(k, "uncached-run-touches-cache", f"run {i} without cache_model executed {op}")
@@ -208,30 +318,38 @@ class Judge:
 
 
 _REF: Dict[str, Any] = {}
+_PER_SIG: Dict[str, Tuple[int, int]] = {}
+MAX_HANGS = 6
 
 
-def fingerprint(res: Any) -> Any:
-    if res[1] is not None:
-        return res[1]
-    stbl, atok = res[0]
-    out = [atok.text]
-    for t in stbl.our_types:
-        out.append((type(t).__name__, str(t.name), [str(p.name) for p in getattr(t, "properties", [])], [str(x.name) for x in getattr(t, "literals", [])]))
-    return out
+fingerprint = rig.fingerprint
 
 
 def reference(text: str) -> Any:
-    """Result of an uncached load of ``text`` (computed once, outside any run thread)."""
+    """Result of an uncached load of ``text`` (computed once, outside any run thread); ("crash", <Type>) if the uncached
+    load itself raises on the tree under test (then a cached run raising the same is not the cache's doing)."""
     if text not in _REF:
         import tempfile
-
-        from aas_core_codegen import run
 
         with tempfile.TemporaryDirectory() as d:
             p = pathlib.Path(d) / "m.py"
             p.write_text(text, encoding="utf-8")
-            _REF[text] = fingerprint(run.load_model(p, cache_model=False))
+            try:
+                from aas_core_codegen import run
+
+                _REF[text] = fingerprint(run.load_model(p, cache_model=False))
+            except BaseException as e:  # noqa
+                _REF[text] = ("crash", type(e).__name__)
     return _REF[text]
+
+
+_REFD: Dict[str, str] = {}
+
+
+def reference_digest(text: str) -> str:
+    if text not in _REFD:
+        _REFD[text] = rig.fp_digest(reference(text))
+    return _REFD[text]
 
 
 # --------------------------------------------------------------------------- driver of a batch
@@ -248,9 +366,25 @@ def run_batch(ctx: Ctx, scenarios: Sequence[Tuple[str, List[Event], bool]], stre
     root = ctx.scratch()
     with rig.Patched():
         for k, (name, ev, mid) in enumerate(scenarios):
+            if rig.HANGS["n"] >= MAX_HANGS:
+                # every hang costs a step time-out; the violation and its replay are recorded, the rest adds nothing
+                ctx.note(f"stream {stream}: stopped after {rig.HANGS['n']} hang observations ({len(scenarios) - k} schedules not run)")
+                break
             wroot = root / f"w{ctx.evaluations}"
             judge = Judge(ctx, name, ev, mid, base)
-            real, world = rig.run_real(wroot, texts, ev, mid_dump=mid, observer=judge.observe)
+            inp = {"kind": "schedule", "name": name, "base": base, "sched": [list(e) for e in ev], "mid_dump": mid}
+            try:
+                real, world = rig.run_real(wroot, texts, ev, mid_dump=mid, observer=judge.observe)
+            except Exception as e:  # noqa
+                # Nothing the code under test does may end the check with a harness error: behaviour the rig has no
+                # category for is reported on the schedule that provoked it (on the pinned tree this never happens).
+                ctx.count((base, tuple(ev), mid), stream=stream)
+                ctx.hit("outcome=unclassified")
+                ctx.fail(inp, f"schedule {name}: the run of the real load_model under the rig ended in {type(e).__name__}: {str(e)[:200]}", f"{ctx.prop}:unclassified-behaviour:{type(e).__name__}")
+                import shutil as _sh
+
+                _sh.rmtree(wroot, ignore_errors=True)
+                continue
             nontrivial = sum(1 for e in ev if e[0] == "sp" and e[2]) >= 1
             ctx.count((base, tuple(ev), mid), nontrivial=nontrivial, stream=stream)
             for o in real["procs"]:
